@@ -141,18 +141,72 @@ class Resolver:
             self._defaults = d
         return self._defaults
 
+    def fn_generics(self, fn):
+        """names of the explicit type parameters of a function, read from its declaration in the source"""
+        cache = self.__dict__.setdefault('_fn_generics', {})
+        if fn.name in cache:
+            return cache[fn.name]
+        meth = fn.name.split('::')[-1]
+        names = []
+        m = re.search(r'<impl at ([^:>]+):(\d+):', fn.name)
+        files = []
+        if m:
+            files = [(os.path.join(self.repo, m.group(1)), int(m.group(2)))]
+        else:
+            for dp, dn, fns in os.walk(os.path.join(self.repo, 'src')):
+                files += [(os.path.join(dp, f), 1) for f in fns if f.endswith('.rs')]
+        for path, line in files:
+            if path not in self.src_cache:
+                try:
+                    self.src_cache[path] = open(path).read().split('\n')
+                except OSError:
+                    continue
+            src = '\n'.join(self.src_cache[path][line - 1:])
+            mm = re.search(r'\bfn\s+' + re.escape(meth) + r'\s*<', src)
+            if not mm:
+                continue
+            i = mm.end() - 1
+            depth = 0
+            for j in range(i, min(len(src), i + 1500)):
+                if src[j] == '<':
+                    depth += 1
+                elif src[j] == '>' and src[j - 1] not in '-=':
+                    depth -= 1
+                    if depth == 0:
+                        for g in _split_generics(src[i + 1:j]):
+                            if g.startswith("'") or g.startswith('const '):
+                                continue
+                            names.append(re.split(r'[:=]', g)[0].strip())
+                        break
+            break
+        cache[fn.name] = names
+        return names
+
     def call_bindings(self, callee, fn, caller_tsub):
         """the impl's generic parameters that the call path `callee` binds: `Environment::<A, NonRestartable>::create_loop`
         resolved to a method of `impl<A, R> Environment<A, R>` binds R := NonRestartable (arguments omitted by rustc
         because they equal the declared default are filled in from the type's declaration).  Identifiers that are
         generic parameters of the caller are replaced by the caller's own bindings."""
+        out = {}
+        # ---- the function's own generic parameters bound by a trailing turbofish: `...::register_child::<(), ..>`
+        meth = fn.name.split('::')[-1]
+        tm = re.search(r'::' + re.escape(meth) + r'::<(.*)>$', callee.strip(), re.S)
+        if tm:
+            fparams = self.fn_generics(fn)
+            fargs = [a for a in _split_generics(tm.group(1)) if not a.startswith("'")]
+            for pn, ca in zip(fparams, fargs):
+                ca = ca.strip()
+                if caller_tsub:
+                    ca = re.sub(r'\b([A-Za-z_]\w*)\b', lambda mm: caller_tsub.get(mm.group(1), mm.group(1)), ca)
+                if ca != pn:
+                    out[pn] = ca
         info = self.impl_of(fn)
         if info is None or not info.generics or info.selfty in (None, '?derived'):
-            return None
+            return out or None
         params = [re.split(r'[:=]', g)[0].strip() for g in _split_generics(info.generics) if not g.startswith("'")]
         sm = re.match(r'^(?:\w+::)*(\w+)\s*<(.*)>$', info.selfty.strip(), re.S)
         if not sm:
-            return None
+            return out or None
         tname, self_args = sm.group(1), [a for a in _split_generics(sm.group(2)) if not a.startswith("'")]
         c = callee.strip()
         m = re.match(r'^<(.*) as (.*)>::(\w+)(::<.*>)?$', c, re.S)
@@ -160,12 +214,12 @@ class Resolver:
             selfty = self._split_as(c)[0]
             am = re.match(r'^&?(?:mut )?(?:\w+::)*(\w+)\s*<(.*)>$', selfty.strip(), re.S)
             if not am or am.group(1) != tname:
-                return None
+                return out or None
             call_args = [a for a in _split_generics(am.group(2)) if not a.startswith("'")]
         else:
             am = re.search(r'(?:^|::)' + re.escape(tname) + r'::<(.*)>::\w+(?:::<.*>)?$', c, re.S)
             if not am:
-                return None
+                return out or None
             txt = am.group(1)
             # cut at the matching '>' of the first '<'
             depth = 1
@@ -182,8 +236,7 @@ class Resolver:
         if len(call_args) < len(self_args) and decl and len(decl) == len(self_args):
             call_args = call_args + [dflt for (_, dflt) in decl[len(call_args):]]
         if len(call_args) != len(self_args) or any(a is None for a in call_args):
-            return None
-        out = {}
+            return out or None
         for sa, ca in zip(self_args, call_args):
             sa = sa.strip()
             if sa in params:
